@@ -264,6 +264,17 @@ def _gen_sensors(r, imu, period, enabled, trace, template, max_epochs):
                    else float(np.nextafter(t, -np.inf)) for t in pick]
             setS(i, np.r_[S(i), off])
             trace.append(dict(kind='meas_ulp', sensor=i, n=len(off)))
+            if ns > 1 and r.random() < 0.6:
+                # two sensors a fraction of a microsecond apart (but not identical)
+                a_, b_ = [int(x) for x in r.permutation(ns)[:2]]
+                src = S(a_)
+                if len(src):
+                    t = float(src[int(r.integers(len(src)))])
+                    d = [float(np.nextafter(t, np.inf)), float(np.nextafter(t, -np.inf)),
+                         t + 2e-7, t - 3e-8][int(r.integers(4))]
+                    if d != t:
+                        setS(b_, np.r_[S(b_), d])
+                        trace.append(dict(kind='meas_near_dup', src=a_, dst=b_))
         if 'meas_cluster' in enabled or template in ('last_interval', 'triple_cluster',
                                                      'first_interval'):
             n_clusters = int(r.integers(1, 3))
